@@ -2,6 +2,7 @@
   Helper lemmas for C09: the restartable initialisation steps of the decoders (Model/Memlimit.lean).
 -/
 import XzVerif.Model.Memlimit
+import XzVerif.Lemmas.Memusage
 
 namespace XzVerif.Memlimit
 open XzVerif.Memusage
@@ -152,9 +153,8 @@ theorem optionScript_live (b : Build) : ∀ (fl : List Container.Filter) (h : He
     intro h
     simp only [optionScript]
     cases hp : Container.propsDecode f.id f.props with
-    | error e => simp only [hp]; exact ih h
+    | error e => exact ih h
     | ok o =>
-      simp only [hp]
       cases hr : optionScript b rest with
       | mk ops2 r2 =>
         cases r2 with
@@ -317,5 +317,164 @@ theorem blockAttempt_restartable (b : Build) (check : Nat) (hdr : List UInt8) :
       subst hc1
       refine ⟨_, ⟨hk, rfl⟩, ?_, hsim.2.1, hsim.2.2⟩
       simp only [Heap.free, allocs_live, hsim.1]
+
+/-! ## What is live after the first SEQ_BLOCK_INIT -/
+
+/-- Bytes requested by a script. -/
+def allocSum : List Op → Nat
+  | [] => 0
+  | .alloc n :: rest => n + allocSum rest
+  | .free _ :: rest => allocSum rest
+
+theorem allocSum_append (a c : List Op) : allocSum (a ++ c) = allocSum a + allocSum c := by
+  induction a with
+  | nil => simp [allocSum]
+  | cons op rest ih => cases op <;> simp [allocSum, ih] <;> omega
+
+theorem allocSum_map_alloc (l : List Nat) : allocSum (l.map Op.alloc) = l.sum := by
+  induction l with
+  | nil => rfl
+  | cons x rest ih => simp [allocSum, ih]
+
+/-- Replaying a script never leaves more live bytes than the start plus everything it requests. -/
+theorem apply_live_le (ops : List Op) : ∀ h : Heap, (h.apply ops).live ≤ h.live + allocSum ops := by
+  induction ops with
+  | nil => intro h; simp [Heap.apply, allocSum]
+  | cons op rest ih =>
+    intro h
+    simp only [Heap.apply, List.foldl_cons]
+    have := ih (h.step op)
+    simp only [Heap.apply] at this
+    cases op with
+    | alloc n => simp only [Heap.step, Heap.alloc, allocSum] at this ⊢; omega
+    | free n => simp only [Heap.step, Heap.free, allocSum] at this ⊢; omega
+
+theorem freshInit_allocs_le (b : Build) (f : Filter) : (freshInit b f).2.1.sum ≤ (filterDecAllocs b f).sum := by
+  simp only [freshInit]
+  cases hk : kindOf f with
+  | none => simp
+  | some k =>
+    simp only
+    split
+    · exact filterDecAllocsOnError_le b f
+    · cases f <;> simp
+
+/-- On a fresh coder the filter chain initialisation requests at most the allocation list of the chain. -/
+theorem chainScript_fresh_allocSum (b : Build) : ∀ fs : List Filter,
+    allocSum (chainScript b fs []).2.1 ≤ (rawDecoderAllocs b fs).sum := by
+  intro fs
+  induction fs with
+  | nil => simp [chainScript, allocSum]
+  | cons f rest ih =>
+    have hf := freshInit_allocs_le b f
+    simp only [chainScript, rawDecoderAllocs, List.map_cons, List.flatten_cons, List.sum_append]
+    simp only [rawDecoderAllocs] at ih
+    cases hcs : chainScript b rest [] with
+    | mk r2 rest3 =>
+      cases rest3 with
+      | mk ops2 c2 =>
+        rw [hcs] at ih
+        simp only at ih
+        cases hfr : freshInit b f with
+        | mk r rest2 =>
+          cases rest2 with
+          | mk a n =>
+            rw [hfr] at hf
+            simp only at hf
+            cases n with
+            | none => simp only [allocSum_map_alloc]; omega
+            | some n =>
+              simp only
+              split
+              · simp only [allocSum_map_alloc]; omega
+              · simp only [allocSum_append, allocSum_map_alloc]; omega
+
+theorem sumOpt_some_all (fm : Filter → Option Nat) : ∀ (fs : List Filter) (t : Nat), sumOpt (fs.map fm) = some t →
+    ∀ f ∈ fs, (fm f).isSome := by
+  intro fs
+  induction fs with
+  | nil => intro t _ f hf; cases hf
+  | cons g rest ih =>
+    intro t h f hf
+    rw [List.map_cons] at h
+    cases hg : fm g with
+    | none => rw [hg] at h; simp [sumOpt] at h
+    | some u =>
+      rw [hg] at h
+      cases hr : sumOpt (rest.map fm) with
+      | none => simp [sumOpt, hr] at h
+      | some s =>
+        cases hf with
+        | head => simp [hg]
+        | tail _ hf' => exact ih s hr f hf'
+
+theorem decMemusage_known (b : Build) (f : Filter) (h : (filterDecMemusage b f).isSome) : decoderKnown f = true := by
+  cases f with
+  | bcj id s => simp only [filterDecMemusage] at h; simp only [decoderKnown]; split at h <;> simp_all
+  | other id => simp [filterDecMemusage] at h
+  | _ => rfl
+
+/-- The first Block of a .xz Stream on a fresh single-threaded decoder: after SEQ_BLOCK_INIT (whatever its outcome, as
+    long as the chain has an estimate and the limit allows it) the bytes that are live — lzma_internal, Stream coder,
+    Index hash, Block decoder, the whole filter chain — are at most `lzma_raw_decoder_memusage()` of the chain, i.e.
+    what `lzma_memusage()` reports and what was compared with the limit. -/
+theorem stream_decoder_first_block_le_estimate (b : Build) (hb : b.Ok) (c : Core) (opt : Nat) (fs : List Filter) (m k : Nat)
+    (c' : Core) (hchain : c.chain = []) (hblk : c.blockAlloc = false)
+    (hlive : c.heap.live = b.szInternal + b.szStreamDecoder + b.szIndexHash + opt)
+    (hm : rawDecoderMemusage b fs = some m) (h : blockInit b c opt fs = (.done k, c')) :
+    c'.heap.live ≤ m ∧ c'.memusage = m ∧ m ≤ c.memlimit := by
+  have hm' := hm
+  unfold rawDecoderMemusage rawCoderMemusage at hm'
+  split at hm'
+  · rename_i hok
+    cases hs : sumOpt (fs.map (filterDecMemusage b)) with
+    | none => simp [hs] at hm'
+    | some total =>
+      simp only [hs, Option.some.injEq] at hm'
+      have hlen := chainOk_length hok
+      have h1 := sumOpt_map_allocs_le (filterDecMemusage b) (filterDecAllocs b) 4096
+        (fun f u h => filterDecAllocs_le b hb.bcj f u h) fs total hs
+      have hknown : fs.all decoderKnown = true := by
+        rw [List.all_eq_true]
+        intro f hf
+        exact decMemusage_known b f (sumOpt_some_all _ fs total hs f hf)
+      have hval : validateChainRet fs = 0 := by
+        simp only [validateChainRet, hok, ↓reduceIte]
+        cases fs with
+        | nil => simp [chainOk] at hok
+        | cons _ _ => simp
+      simp only [blockInit, hm] at h
+      by_cases hgt : m > c.memlimit
+      · simp [hgt] at h
+      · simp only [hgt, ↓reduceIte, blockInitScript, rawDecoderReinitScript, hval, hknown, hchain, hblk,
+          ne_eq, not_true_eq_false, Bool.not_true, Bool.false_eq_true] at h
+        have hs2 := chainScript_fresh_allocSum b fs
+        have hx := hb.xzDec
+        simp only [rawDecoderAllocs] at hs2
+        cases hcs : chainScript b fs [] with
+        | mk r rest =>
+          cases rest with
+          | mk ops c1 =>
+            rw [hcs] at hs2
+            simp only at hs2
+            simp only [hcs] at h
+            have hfour : 4096 * fs.length ≤ 16384 := by simp only [FILTERS_MAX] at hlen; omega
+            by_cases hr : r = 0
+            · subst hr
+              simp only [not_true_eq_false, ↓reduceIte, Prod.mk.injEq, InitResult.done.injEq] at h
+              obtain ⟨_, hc'⟩ := h
+              subst hc'
+              refine ⟨?_, rfl, by omega⟩
+              have := apply_live_le (Op.alloc b.szBlockDecoder :: ops) c.heap
+              simp only [List.cons_append, List.nil_append, Heap.free, allocSum] at this ⊢
+              omega
+            · simp only [hr, not_false_eq_true, ↓reduceIte, Prod.mk.injEq, InitResult.done.injEq] at h
+              obtain ⟨_, hc'⟩ := h
+              subst hc'
+              refine ⟨?_, rfl, by omega⟩
+              have := apply_live_le (Op.alloc b.szBlockDecoder :: (ops ++ [Op.free (chainBytes c1)])) c.heap
+              simp only [List.cons_append, List.nil_append, Heap.free, allocSum, allocSum_append] at this ⊢
+              omega
+  · cases hm'
 
 end XzVerif.Memlimit
